@@ -224,7 +224,7 @@ func TestC01(t *testing.T) {
 		fail := func(class, format string, args ...interface{}) {
 			kit.Fail(t, "C01", class, kase, format, args...)
 		}
-		g := kit.NewTxnGen(s, kit.TxnCfg{MaxOps: 3, Named: true, RefBias: true, IndexBias: true, MaxRows: 5})
+		g := kit.NewTxnGen(s, withBig(t, kit.TxnCfg{MaxOps: 3, Named: true, RefBias: true, IndexBias: true, MaxRows: 5}))
 		dbState := func() kit.State {
 			st, err := srv.Snapshot()
 			if err != nil {
